@@ -2,7 +2,7 @@
 queries are decided by z3 inside the worker, every leaf gets one witness replayed on the native build (differential
 validation of the interpreter), counterexamples are replayed natively before they are reported, and known findings are
 excluded by region so that any other violation of the same property still alarms."""
-import os, sys, json, time, hashlib, random, traceback
+import os, sys, json, time, hashlib, random, traceback, shutil
 import z3
 from . import engine
 from .session import Session, sym_args, args_value, val_to_py, concretize_py, to_i64
@@ -167,6 +167,8 @@ class Run:
         self.violations = []; self.known = {}; self.mismatches = []; self.unsupported = []
         self.samples = []; self.slices = []; self.called = set(); self.modelled = set(); self.summarized = set()
         self.outcomes = {}
+        self.ok_witnesses = {}
+        self.engine_b = None
 
     def run(self):
         prop = self.prop
@@ -181,8 +183,77 @@ class Run:
         rng = random.Random(self.seed)
         for sl in prop.slices(self.tier, rng):
             self.run_slice(S, sl, findings)
-        S.close()
+        try:
+            if hasattr(prop, 'ENGINE_B') and not self.violations:
+                self.engine_b_phase(S, prop.ENGINE_B)
+        finally:
+            S.close()
         return self.finish()
+
+    # ------------------------------------------------------------------ Engine B: Kani on the emitted bindings
+    def engine_b_phase(self, S, cfg):
+        from . import engineb as B
+        import random
+        rng = random.Random(self.seed)
+        K = cfg['max_quick'] if self.tier == 'quick' else cfg['max_thorough']
+        pool = list(self.ok_witnesses.get(cfg['template'], []))
+        for extra in cfg.get('fixed', []): pool.insert(0, extra)
+        if not pool:
+            self.unsupported.append({'unsupported': 'Engine B: no accepted pointer-size-8 witness from Engine A for ' + cfg['template']})
+            return
+        # spread the choice over the leaves (they come grouped by exploration order)
+        fixed = cfg.get('fixed', [])
+        rest = pool[len(fixed):]
+        rng.shuffle(rest)
+        chosen = (fixed + rest)[:K * (8 if cfg.get('accept') else 1)]
+        work = os.path.join(os.path.dirname(S.art['dir']), 'kani', self.prop.ID)
+        os.makedirs(work, exist_ok=True)
+        ws = []; t0 = time.time()
+        info = {'witnesses': 0, 'harnesses': 0, 'verified': 0, 'failed': [], 'seconds': 0, 'kinds': cfg['kinds'], 'abi_checked': 0}
+        for i, a in enumerate(chosen):
+            try:
+                summ, files = B.emit(S, cfg['template'], a, work)
+            except B.EmitError as e:
+                self.unsupported.append({'unsupported': 'Engine B emit: %s' % e}); continue
+            if summ[0] != 'ok' or 'm.rs' not in files:
+                self.mismatches.append({'slice': 'engine-b', 'args': a, 'interpreted': 'ok', 'native': summ}); continue
+            if cfg.get('accept') and not cfg['accept'](summ): continue
+            if len(ws) >= K: break
+            w = B.Witness(i, cfg['template'], a, summ, files['m.rs'])
+            if cfg.get('abi'):
+                bad = B.abi_mismatch(w)
+                info['abi_checked'] += 1
+                if bad:
+                    self.violations.append({'slice': 'engine-b', 'template': cfg['template'], 'query': 'emitted-abi-strings', 'args': [to_i64(x) for x in a],
+                                            'expected': 'the convention of every slot / wrapper in the summary', 'native': bad})
+            ws.append(w)
+        if not ws: return
+        crate, names = B.build_crate(work, ws, kinds=cfg['kinds'])
+        r = B.run_kani(crate, names)
+        info.update(witnesses=len(ws), harnesses=len(names), seconds=r['seconds'], verified=r['summary']['ok'], failed=r['summary']['failed'])
+        self.engine_b = info
+        print('  engine B: %d witness programs, %d harnesses, %d verified, failed=%s, %.1fs' % (len(ws), len(names), r['summary']['ok'], r['summary']['failed'], r['seconds']), flush=True)
+        if r['compile_error']:
+            # code emitted by pyxis (or the generated harness) does not compile: decide which
+            txt = r['compile_error']
+            if 'cannot transmute between types of different sizes' in txt or 'E0512' in txt:
+                self.violations.append({'slice': 'engine-b', 'template': cfg['template'], 'query': 'emitted-size-check-compiles', 'args': [to_i64(x) for x in ws[0].args],
+                                        'expected': 'rustc accepts transmute::<[u8; size], T>', 'native': txt[:1500]})
+            else:
+                self.unsupported.append({'unsupported': 'Engine B: crate does not compile: ' + txt[:1500]})
+            return
+        if 'canary_must_fail' not in r['summary']['failed']:
+            self.unsupported.append({'unsupported': 'Engine B vacuity: the canary harness was not reported as failed'}); return
+        for hname in r['summary']['failed']:
+            if hname == 'canary_must_fail': continue
+            w = names.get(hname)
+            self.violations.append({'slice': 'engine-b', 'template': cfg['template'], 'query': 'kani:' + hname,
+                                    'args': [to_i64(x) for x in (w.args if w else [])], 'expected': 'harness verified', 'native': 'VERIFICATION FAILED ' + hname,
+                                    'engine_b': True})
+        if r['summary']['ok'] + len(r['summary']['failed']) < len(names) + 1:
+            self.unsupported.append({'unsupported': 'Engine B: %d of %d harnesses produced no verdict' % (len(names) + 1 - r['summary']['ok'] - len(r['summary']['failed']), len(names) + 1)})
+        self.validated += len(ws)
+        shutil.rmtree(os.path.join(crate, 'target', 'kani'), ignore_errors=True) if False else None
 
     def run_slice(self, S, sl, findings):
         a = sym_args(sl.nparams)
@@ -207,6 +278,8 @@ class Run:
                 self.unsupported.append(r); continue
             self.leaves += 1; self.forks += r['forks']
             info['outcomes'][r['outcome']] = info['outcomes'].get(r['outcome'], 0) + 1
+            if r['outcome'] == 'ok' and r.get('witness') and r['witness'][0] == 8 and all(q['status'] == 'unsat' and not q['known'] for q in r['queries']):
+                self.ok_witnesses.setdefault(sl.template, []).append(r['witness'])
             # differential validation of the leaf's witness on the native build
             if r['witness'] is None:
                 self.unvalidated = getattr(self, 'unvalidated', 0) + 1
@@ -356,6 +429,7 @@ class Run:
                 'functions_summarized': sorted(self.summarized),
                 'std_models_used': sorted(self.modelled),
                 'known_findings_hit': {k: v['count'] for k, v in self.known.items()},
+                'engine_b_kani_on_emitted_code': self.engine_b,
                 'model_mismatches': len(self.mismatches),
                 'error_text_differences_native_vs_interpreted (order-dependent wording, tolerated)': ERR_TEXT_DIFFS[0],
                 'leaves_without_witness_model (solver timeout)': getattr(self, 'unvalidated', 0),
